@@ -622,7 +622,7 @@ func Count(quick bool) int {
 func init() {
 	vlib.Register(&vlib.Check{
 		ID: "C39", Engine: "E2",
-		Rule: "every program `%[1,2,3] -> foreach i { BODY }; out end` (and the same wrapped in `function f { ...; out fend }; f; exitnum; out end`) where BODY is a sequence of 1..L statements from: a uniquely tagged `out` of the loop variables; a bare jump; `if { $var == K } then { out T+; JUMP; out T- }`; at most one inner loop (`%[a,b] -> foreach j { BODY' }` or a two-pass counter `while`) whose BODY' has 1..L' such statements (and may itself hold one loop with a body of 1..L'' statements when depth 2 is allowed). JUMP ranges over `break`/`continue` of every loop name in scope, `break if`, and inside the function `return N` and `break f`. quick: L=2 L'=2 depth 1, K in the first two values of the innermost variable (28 362 programs); thorough: the union, without repeats, of (L=3,L'=1), (L=2,L'=2) at depth 1 and (L=1,L'=2,L''=1), (L=2,L'=1,L''=1) at depth 2, every K and every variable in scope (295 816 programs). stdout lines and exit number are compared with a reference interpreter written from the statement (break ends the nearest enclosing block of that name, continue goes to its next iteration, return ends the function with exit N, everything outside carries on). non-trivial = programs in which the model takes at least one jump that cuts off at least one statement",
+		Rule:   "every program `%[1,2,3] -> foreach i { BODY }; out end` (and the same wrapped in `function f { ...; out fend }; f; exitnum; out end`) where BODY is a sequence of 1..L statements from: a uniquely tagged `out` of the loop variables; a bare jump; `if { $var == K } then { out T+; JUMP; out T- }`; at most one inner loop (`%[a,b] -> foreach j { BODY' }` or a two-pass counter `while`) whose BODY' has 1..L' such statements (and may itself hold one loop with a body of 1..L'' statements when depth 2 is allowed). JUMP ranges over `break`/`continue` of every loop name in scope, `break if`, and inside the function `return N` and `break f`. quick: L=2 L'=2 depth 1, K in the first two values of the innermost variable (28 362 programs); thorough: the union, without repeats, of (L=3,L'=1), (L=2,L'=2) at depth 1 and (L=1,L'=2,L''=1), (L=2,L'=1,L''=1) at depth 2, every K and every variable in scope (295 816 programs). stdout lines and exit number are compared with a reference interpreter written from the statement (break ends the nearest enclosing block of that name, continue goes to its next iteration, return ends the function with exit N, everything outside carries on). non-trivial = programs in which the model takes at least one jump that cuts off at least one statement",
 		Run:    run,
 		Replay: replay,
 		Assumptions: []string{
